@@ -32,7 +32,7 @@ Verdict(e) ==
      \* session renders like a database of the same content that was never rendered (later = name of the first rendering
      \* that differs, "" if none or not applicable)
      \* no side effects also means: owner links, back-pointers and query results are what they were before the session
-     ELSE IF e.linksmoved # <<>> THEN "rendering changed a link of the object graph: " \o e.linksmoved[1]
+     ELSE IF e.linksmoved # <<>> THEN "the session (renderings, refused or self-replacing adds) changed a link of the object graph: " \o e.linksmoved[1]
      ELSE IF e.later # "" THEN "an earlier rendering changed what a later one shows (after the same edits, rendered-before differs from never-rendered): " \o e.later
      ELSE ""
 
